@@ -88,11 +88,11 @@ def run_chunk(chunk, ctx):
         if status == "gap":
             col.gap(str(res)[:100])
         elif status == "timeout":
-            col.gap("path timeout")
+            col.count("slow_paths_not_analysed")
         elif status == "ok" and not cur.get("viol") and col.want_witness():
             col.add_witness(dict(name=res["name"], text=SymStr(cur["items"]).concretize(ex.model()), lines=res["lines"], codes=res["codes"],
                                  op=opname, hint=res["hint"]), dict(ok=True))
-    ex.explore(body, on_path=on_path, max_time=max(1.0, min(ctx.get("chunk_time", 30), ctx["deadline"] - time.time())), path_alarm=15.0)
+    ex.explore(body, on_path=on_path, max_time=max(1.0, min(ctx.get("chunk_time", 30), ctx["deadline"] - time.time())), path_alarm=15.0, max_paths=ctx.get("max_paths"))
     res = col.finish()
     res["stats"] = ex.stats()
     res["counters"]["candidates"] = len(cands)
